@@ -47,6 +47,8 @@ func checkC01(c *Ctx) {
 	r.Rule("R01c", "URL-carried values are escaped by the client (PathEscape / url.Values) and unescaped by the server accessors", 3)
 	r.Rule("R01g", "every key the emitted encoder of an empty_behavior message writes as null is mapped back by the emitted decoder of the same message, whatever the order of the fields' settings (both Go plugins)", 14)
 	emptyBehaviorPairing(c, "R01g")
+	r.Rule("R01h", "timestamp_format decoders keep sub-second precision when they hand the instant to protojson (both Go plugins)", 2)
+	timestampDecoderPrecision(c, "R01h")
 	r.Rule("R01e", "every kind that can be bound from the URL has a server-side conversion arm", 2)
 
 	ep, err := c.ServerRuntime()
